@@ -274,8 +274,9 @@ Qed.
 Theorem join_date_matches : forall c t, 0 <= t < TCAL -> matches c (join_date c t) = true.
 Proof.
   intros c t Ht. unfold matches, join_date. pose proof (is_date_name_date_string (rot c) t Ht) as HD.
-  destruct (rot c) eqn:Ek; destruct (prefix c) as [p|], (suffix c) as [s|]; simpl;
-    rewrite ?prefix_app, ?prefix_refl, ?ends_with_refl; simpl; auto.
-  all: try (rewrite <- !app_assoc_s; rewrite ends_with_app; reflexivity).
-  all: try (apply ends_with_app).
+  destruct (rot c) eqn:Ek; destruct (prefix c) as [p|], (suffix c) as [s|]; cbv beta iota zeta.
+  all: rewrite ?prefix_app, ?prefix_refl.
+  all: rewrite <- ?app_assoc_s.
+  all: rewrite ?ends_with_app, ?ends_with_refl, ?HD.
+  all: reflexivity.
 Qed.
